@@ -346,7 +346,7 @@ def compare_pair(ctx, d2, fb, fi):
             ps, _ = run_paths(f.node, decide=has_reaction_decide, call_hook=hook, attr_hook=attr_hook)
             p = [q for q in ps if not q.raised][0]
             for e in p.events:
-                if e.kind == 'assign' and e.target == 'stoichiometry':
+                if e.kind == 'assign' and e.value.coeff('RXN.X', 'RXN._stoichiometry') != 0 and e.value.coeff('self.X', 'self._stoichiometry') != 0:
                     stoich_num = e.value
             if stoich_num is None:
                 continue
